@@ -83,6 +83,17 @@ pub struct Divergence(pub String);
 pub fn explore(
     dev_bound: Option<usize>,
     max_execs: u64,
+    f: impl FnMut(&[u16]) -> Result<(Chooser, bool), Divergence>,
+) -> Result<ExploreStats, Divergence> {
+    explore_until(dev_bound, max_execs, None, f)
+}
+
+/// Like `explore`, with a wall-clock deadline after which the exploration of this
+/// scenario stops and is reported as capped.
+pub fn explore_until(
+    dev_bound: Option<usize>,
+    max_execs: u64,
+    deadline: Option<std::time::Instant>,
     mut f: impl FnMut(&[u16]) -> Result<(Chooser, bool), Divergence>,
 ) -> Result<ExploreStats, Divergence> {
     let mut stats = ExploreStats {
@@ -132,7 +143,7 @@ pub fn explore(
         }
         retries_here = 0;
         stats.max_choice_points = stats.max_choice_points.max(ch.taken.len());
-        if stats.executions >= max_execs {
+        if stats.executions >= max_execs || deadline.map_or(false, |d| std::time::Instant::now() >= d) {
             stats.capped = true;
             return Ok(stats);
         }
